@@ -156,6 +156,21 @@ func c12Oracle(p *Plan) *Verdict {
 		}
 		return v
 	}
+	if inHdr == "Connect-Timeout-Ms" && len(val) > 10 && strings.Trim(val, "0123456789") == "" {
+		// more digits than the Connect grammar allows: the oracle does not say whether such a value is refused or taken as
+		// the (huge) number it spells. If it is taken, it is far beyond the practical range: it may be clamped to that range
+		// or dropped as unbounded - not turned into a short timeout.
+		v.probe("connect-over-10-digits")
+		if b := st.backend(); b != nil && formProtocol(rc.Client.Form) != target {
+			v.probe("connect-over-10-digits-dispatched")
+			if got := b.Header.Get(outHdr); got != "" {
+				if dOut, okOut := refTimeoutNanos(outHdr, got); okOut && new(big.Rat).Add(dOut, unitNs(outHdr, got)).Cmp(practicalRangeNs) < 0 {
+					v.violate("huge-timeout-shortened", facts, "%s: %q (more than 292 years) became %s: %q (= %s ns)", inHdr, val, outHdr, got, dOut.FloatString(0))
+				}
+			}
+		}
+		return v
+	}
 	d, ok := refTimeoutNanos(inHdr, val)
 	if !ok {
 		v.probe("malformed")
@@ -223,6 +238,11 @@ func c12All() []*Plan {
 	for _, form := range c12Forms {
 		hdr := timeoutHeaderOf(form)
 		vals := append(append([]string{""}, c12ValidValues(hdr)...), c12Malformed(hdr)...)
+		if hdr == "Connect-Timeout-Ms" {
+			// numbers with more than ten digits, around and beyond what a 64-bit count of nanoseconds holds
+			vals = append(vals, "10000000000", "99999999999", "9223372036854", "9223372036855", "18446744073710", "27670116110564", "18446744073709552",
+				"288230376151711744", "4611686018427387904", "9223372036854775807", "9223372036854775808", "18446744073709551616")
+		}
 		for _, target := range c12Targets {
 			for _, val := range vals {
 				codec := "proto"
@@ -257,6 +277,9 @@ func init() {
 				val = fmt.Sprintf("%d%c", c.Intn(100000000)/Pick(c, 1, 10, 1000, 100000, 10000000), "HMSmun"[c.Intn(6)])
 			case "Connect-Timeout-Ms":
 				val = fmt.Sprintf("%d", c.Uint64()%10000000000/uint64(Pick(c, 1, 10, 1000, 100000, 10000000)))
+				if c.Prob(0.1) {
+					val = fmt.Sprintf("%d", c.Uint64()|1<<44) // 14 to 20 digits
+				}
 			default:
 				val = fmt.Sprintf("%d.%0*d", c.Intn(40000), c.Range(1, 9), c.Intn(1000))
 			}
